@@ -437,6 +437,55 @@ def gen_complete(rng, mode=None, abortless=True):
     return build_case(cfg, body, "complete-" + cfg["mode"])
 
 
+def gen_reqresp(rng, mode=None):
+    """Framed request / response: the requester writes a request and shuts down (or keeps its
+    write half), the responder reads exactly the request bytes (often without reading the EOF
+    that follows), answers, and drops the stream; the requester reads the answer to EOF.
+    Peeks before reads, capacity pressure and random delivery order as elsewhere."""
+    cfg = base_cfg(rng, mode)
+    c, s = hosts_of(cfg)
+    remote = cfg["mode"] == "remote"
+    by = Bytes()
+    held = remote and rng.random() < 0.85
+    body = []
+    req_host, req_sid, rsp_host, rsp_sid = (c, CLIENT_SID, s, SERVER_SID) if rng.random() < 0.6 else (s, SERVER_SID, c, CLIENT_SID)
+    nreq = rng.randrange(1, min(cfg["cap"], 3) + 1)
+    req = [by.take(rng.choice([1, 2, 3])) for _ in range(nreq)]
+    total = sum(len(x) for x in req)
+    st = {"ctl": [["hold", c, s]] if held else [], "hosts": {}}
+    st["hosts"][str(req_host)] = [["try_write", req_sid, x] for x in req]
+    if rng.random() < 0.8:
+        st["hosts"][str(req_host)].append(["shutdown", req_sid])
+    body.append(st)
+    # deliver the request (and its FIN) in some order
+    for _ in range(nreq + 2):
+        body.append({"ctl": [["deliver", c, s, rng.choice([0, 0, 1])]] if held else [], "hosts": {}})
+    # the responder reads exactly the request: reads sized so that EOF is usually not consumed
+    rd = []
+    left = total
+    while left > 0:
+        n = rng.choice([1, 2, left, left])
+        n = min(n, left)
+        if rng.random() < 0.3:
+            rd.append(["peek", rsp_sid, rng.choice([1, 64])])
+        rd.append(["read", rsp_sid, n])
+        left -= n
+    if rng.random() < 0.25:
+        rd.append(["read", rsp_sid, 8])          # sometimes the EOF is read as well
+    body.append({"ctl": [], "hosts": {str(rsp_host): rd}})
+    nrsp = rng.randrange(1, min(cfg["cap"], 3) + 1)
+    ans = [["try_write", rsp_sid, by.take(rng.choice([1, 2, 4]))] for _ in range(nrsp)]
+    closing = rng.choice([["drop", rsp_sid], ["drop", rsp_sid], ["shutdown", rsp_sid], ["drop_r", rsp_sid]])
+    body.append({"ctl": [], "hosts": {str(rsp_host): ans + [closing]}})
+    rn = rng.choice([1, 3, 64])
+    for t in range(nrsp + 6):
+        ctl = [["deliver", c, s, rng.choice([0, 0, 1])]] if held else []
+        body.append({"ctl": ctl, "hosts": {str(req_host): [["read", req_sid, rn]] * rng.choice([1, 2])}})
+    for t in range(8):
+        body.append({"ctl": [["deliver", c, s, 0]] if held else [], "hosts": {str(req_host): [["read", req_sid, rn]] * 2}})
+    return build_case(cfg, body, "reqresp-" + cfg["mode"])
+
+
 def perm_case(cap, nseg, perm, reads_between, client=0, rn=64, v6=False):
     """Writer sends nseg-1 data segments and a FIN in one step (capacity
     permitting); the held link delivers them in the order `perm`; the reader
